@@ -9,6 +9,9 @@ the data streams are `g = 1 .. n` - lives on connection `g % c` and is the `g / 
   same connection; each connection hands its streams out in order (`visible`, `accepted` count streams per connection);
 * the receiver's `multiConn.AcceptStream` takes the control stream from connection 0 first (initial state) and afterwards whatever
   any connection's accept loop delivers;
+* resume: besides the chunks the receiver waits for (`toSend`, `remaining`) a file may have chunks that travel although the
+  receiver already has them (`toSendU`: marked in its bitmap but at or above `forceSendFrom`, and the verification re-send); the
+  receiver writes or - once the file is finalised - drains them without counting;
 * everything else as in `Model/ProtoLM`.
 -/
 namespace TV.ProtoLMC
@@ -21,6 +24,9 @@ structure St where
   toSend : Nat → Nat
   remaining : Nat → Nat
   buf : Nat → Nat → Nat          -- stream -> file -> frames in flight
+  toSendU : Nat → Nat            -- per file: chunks still to hand out that the receiver does not wait for (marked in its resume
+                                 -- bitmap but at or above forceSendFrom, or the verification re-send)
+  bufU : Nat → Nat → Nat         -- such frames in flight
   c : Nat
   visible : Nat → Nat           -- connection -> streams revealed to the receiver
   accepted : Nat → Nat          -- connection -> streams the receiver took
@@ -33,6 +39,8 @@ structure St where
 
 inductive Step
   | dispatch (f w : Nat)
+  | dispatchU (f w : Nat)
+  | readFrameU (w f : Nat)
   | sendEnd (f : Nat)
   | accept (j : Nat)
   | readFrame (w f : Nat)
@@ -54,8 +62,18 @@ def step (s : St) : Step → Option St
       some { s with toSend := upd s.toSend f (s.toSend f - 1), buf := upd s.buf w (upd (s.buf w) f (s.buf w f + 1)),
                     visible := upd s.visible (w % s.c) (max (s.visible (w % s.c)) (w / s.c + 1)) }
     else none
+  | .dispatchU f w =>
+    if f < s.k ∧ 1 ≤ w ∧ w ≤ s.n ∧ s.toSendU f > 0 then
+      some { s with toSendU := upd s.toSendU f (s.toSendU f - 1), bufU := upd s.bufU w (upd (s.bufU w) f (s.bufU w f + 1)),
+                    visible := upd s.visible (w % s.c) (max (s.visible (w % s.c)) (w / s.c + 1)) }
+    else none
+  | .readFrameU w f =>
+    -- written over a chunk that is already there, or - when the file is already finalised - drained; either way nothing is counted
+    if f < s.k ∧ w / s.c < s.accepted (w % s.c) ∧ s.bufU w f > 0 then
+      some { s with bufU := upd s.bufU w (upd (s.bufU w) f (s.bufU w f - 1)) }
+    else none
   | .sendEnd f =>
-    if f < s.k ∧ s.toSend f = 0 ∧ s.endSent f = false then some { s with endSent := upd s.endSent f true } else none
+    if f < s.k ∧ s.toSend f = 0 ∧ s.toSendU f = 0 ∧ s.endSent f = false then some { s with endSent := upd s.endSent f true } else none
   | .accept j => if j < s.c ∧ s.accepted j < s.visible j then some { s with accepted := upd s.accepted j (s.accepted j + 1) } else none
   | .readFrame w f =>
     if f < s.k ∧ w / s.c < s.accepted (w % s.c) ∧ s.buf w f > 0 then
@@ -70,24 +88,26 @@ def step (s : St) : Step → Option St
   | .recvEndAll =>
     if s.endAllSent = true ∧ s.endAllRecv = false then some { s with endAllRecv := true } else none
 
-/-- `chunks f` chunks per file; `n` streams -/
-def init (k n c : Nat) (chunks : Nat → Nat) : St :=
-  { k, n, c, toSend := chunks, remaining := chunks, buf := fun _ _ => 0,
+/-- `chunks f` chunks per file the receiver waits for, `extra f` further ones it does not wait for; `n` streams, `c` connections -/
+def init (k n c : Nat) (chunks extra : Nat → Nat) : St :=
+  { k, n, c, toSend := chunks, remaining := chunks, buf := fun _ _ => 0, toSendU := extra, bufU := fun _ _ => 0,
     visible := fun j => if j = 0 then 1 else 0, accepted := fun j => if j = 0 then 1 else 0,
     endSent := fun _ => false, endRecv := fun _ => false, doneSent := fun _ => false, doneRecv := fun _ => false,
     endAllSent := false, endAllRecv := false }
 
 def final (s : St) : Prop := s.endAllRecv = true
 
-inductive Reachable (k n c : Nat) (chunks : Nat → Nat) : St → Prop
-  | init : Reachable k n c chunks (init k n c chunks)
-  | step {s s' : St} (a : Step) : Reachable k n c chunks s → step s a = some s' → Reachable k n c chunks s'
+inductive Reachable (k n c : Nat) (chunks extra : Nat → Nat) : St → Prop
+  | init : Reachable k n c chunks extra (init k n c chunks extra)
+  | step {s s' : St} (a : Step) : Reachable k n c chunks extra s → step s a = some s' → Reachable k n c chunks extra s'
 
 /-- frames of file `f` in flight on all streams -/
 def inflight (s : St) (f : Nat) : Nat := sumN (s.n + 1) (fun w => s.buf w f)
 
+def inflightU (s : St) (f : Nat) : Nat := sumN (s.n + 1) (fun w => s.bufU w f)
+
 def measure (s : St) : Nat :=
   sumN s.k (fun f => 2 * s.toSend f + b2n (!s.endSent f) + b2n (!s.endRecv f) + b2n (!s.doneRecv f)) +
-  sumN s.k (fun f => inflight s f) + sumN s.c (fun j => cnt s.n s.c j - s.accepted j) + b2n (!s.endAllSent) + b2n (!s.endAllRecv)
+  sumN s.k (fun f => inflight s f) + sumN s.k (fun f => 2 * s.toSendU f) + sumN s.k (fun f => inflightU s f) + sumN s.c (fun j => cnt s.n s.c j - s.accepted j) + b2n (!s.endAllSent) + b2n (!s.endAllRecv)
 
 end TV.ProtoLMC
